@@ -406,16 +406,13 @@ Proof.
   - intros H. inversion H; subst. exists []. split; reflexivity.
 Qed.
 
-Lemma op_on_det p o : op_on p o = true -> op_det o = true.
-Proof. destruct o; cbn; try discriminate; reflexivity. Qed.
-
 Lemma ops_same q p ops : forall s,
   wf s -> q <> p -> forallb (op_on p) ops = true -> same_for q (abs (run s ops)) (abs s).
 Proof.
   induction ops as [|o ops IH]; intros s Hwf Hne Hall; [apply same_for_refl|].
   cbn in Hall. apply andb_true_iff in Hall as [Ho Hall]. cbn [run fold_left].
   eapply same_for_trans; [apply IH; [apply wf_step; assumption|assumption|assumption]|].
-  eapply same_for_trans; [apply same_for_req; apply refine_step; [assumption|apply (op_on_det p); assumption]|].
+  eapply same_for_trans; [apply same_for_req; apply refine_step; assumption|].
   apply (g_step_same q p); [assumption|apply tomb_reg_abs|assumption|assumption].
 Qed.
 
@@ -447,7 +444,8 @@ Qed.
 
 Lemma h_delete_topic_4xx s q s' n : h_delete_topic s q = (s', n) -> n <> 200%N -> s' = s.
 Proof.
-  unfold h_delete_topic. destruct q as [|[t|] c nd]; intros H; inversion H; subst; try reflexivity. contradiction.
+  unfold h_delete_topic. destruct q as [|[t|] c nd]; try (intros H; inversion H; reflexivity).
+  destruct (negb (is_valid_name t)); intros H; inversion H; subst; [reflexivity|contradiction].
 Qed.
 
 Lemma h_create_channel_4xx s q s' n : h_create_channel s q = (s', n) -> n <> 200%N -> s' = s.
@@ -465,7 +463,8 @@ Qed.
 
 Lemma h_tombstone_4xx s q s' n : h_tombstone s q = (s', n) -> n <> 200%N -> s' = s.
 Proof.
-  unfold h_tombstone. destruct q as [|[t|] c [nd|]]; intros H; inversion H; subst; try reflexivity. contradiction.
+  unfold h_tombstone. destruct q as [|[t|] c [nd|]]; try (intros H; inversion H; reflexivity);
+    destruct (negb (is_valid_name t)); intros H; inversion H; subst; try reflexivity. contradiction.
 Qed.
 
 (* an HTTP request that is not answered 200 by a handler changes nothing: every 4xx (bad
